@@ -135,3 +135,25 @@ def scan_rules(ctx, R_api, R_stream, R_fwd=None):
                           "every element of the scan is forwarded exactly once as M.group(0) (or its address prefix), "
                           "nothing else is forwarded")
     return entered, I
+
+
+def compiled_with_own_config(ctx, rule):
+    """the regex is generated while the rule's own config is the loaded one: MasterOfPuppets.__init__ both loads the
+    config and produces the regex (nothing is deferred to match time, when another rule may have been loaded)"""
+    from ..matchflow import match_interp, match_scenarios
+    I = match_interp(ctx.p)
+    n = 0
+    for s in match_scenarios(I, file_types=("assembly",), return_modes=("bool",), search_modes=("first_find",),
+                             only_addrs=(False,), configs=({"mnemonics-full-match": True},)):
+        mark = s.path.run.user.get("init_events")
+        if mark is None:
+            continue
+        ev = s.path.events
+        prod = [i for i, e in enumerate(ev) if e.kind == "produce_regex"]
+        loads = [i for i, e in enumerate(ev) if e.kind == "cfg_set"]
+        n += 1
+        ok = bool(prod) and bool(loads) and max(loads) < min(prod) and max(prod) < mark and len(prod) == 1
+        ctx.check(ok, rule, "MasterOfPuppets.__init__",
+                  f"config loaded at events {loads[:1]}..{loads[-1:]}, regex produced at {prod}, constructor ends at {mark}",
+                  "the constructor loads the rule's config and then produces the regex, once; matching reuses that regex")
+    return n
